@@ -628,6 +628,34 @@ func (w *c15hWorld) runHook(script string) {
 	} else {
 		out = append(out, "exit0")
 	}
+	// "first held": an episode starts when the snap really is held. A request the reference accepts but that
+	// leaves the snap not held (holding less is no violation of this property) has not started one.
+	w.st.Lock()
+	held, err := snapstate.HeldSnaps(w.st, snapstate.HoldAutoRefresh)
+	w.st.Unlock()
+	if err != nil {
+		w.problem("error", "HeldSnaps: %v", err)
+	}
+	var notHeld []string
+	for k, start := range w.ref.episodes {
+		if !start.Equal(now) {
+			continue
+		}
+		onBy := strings.SplitN(k, "|", 2)
+		established := false
+		for _, h := range held[onBy[0]] {
+			if h == onBy[1] {
+				established = true
+			}
+		}
+		if !established {
+			delete(w.ref.episodes, k)
+			w.stats["accepted_holds_not_in_effect"]++
+			notHeld = append(notHeld, "not-held:"+onBy[0])
+		}
+	}
+	sort.Strings(notHeld)
+	out = append(out, notHeld...)
 	w.outcome = script + "=>" + strings.Join(out, ",")
 }
 
@@ -1011,7 +1039,7 @@ func (p *c15hProc) stop() {
 	go func() { p.cmd.Wait(); close(done) }()
 	select {
 	case <-done:
-	case <-time.After(20 * time.Second):
+	case <-time.After(10 * time.Minute): // only to turn a worker that never exits into a kill; its results were collected before
 		p.cmd.Process.Kill()
 	}
 }
@@ -1076,9 +1104,9 @@ func TestVerifC15hook(t *testing.T) {
 		c15hWorkerLoop()
 		os.Exit(0)
 	}
-	quickBudget, thoroughBudget := 600*time.Second, 30*time.Minute
+	quickBudget, thoroughBudget := 300*time.Second, 14*time.Minute // soft: exceeding them caps the run (exhaustive=false, exit 0)
 	r := eng.Start("C15", "model_checking", quickBudget, thoroughBudget)
-	r.Assume("hold episode of (held, holder) = from the first accepted hold request after a release (proceed), a refusal, or a refresh of the held snap",
+	r.Assume("hold episode of (held, holder) = from the first accepted hold request (that leaves the snap reported held) after a release (proceed), a refusal, or a refresh of the held snap",
 		"bounds: 48h after the episode start for another snap, 90 days (95 days minus the 5-day buffer) after the held snap's last refresh for every snap",
 		"contract of the gate-auto-refresh hook: exit 0 without --hold as the last snapctl request = proceed; a failing hook = hold request, unless the hook's last request already was --hold (then the answer it got stands)",
 		"a hold request of the gating snap covers every snap whose pending refresh affects it (checked against AffectingSnapsForAffectedByRefreshCandidates when a fixture is built); all of them are refused together",
